@@ -78,9 +78,14 @@ C("mako.runtime:CallerStack.__bool__",
 C("mako.runtime:Context._push_writer",
   params={"self": "Context"}, returns="Writer",
   modifies=["self._buffer_stack"],
-  ensures=[("pushed-one", "len(self._buffer_stack) == len(old(self._buffer_stack)) + 1"),
+  ensures=[("elements-kept", "forall(lambda i: same(self._buffer_stack[i], old(self._buffer_stack)[i]), 0, len(old(self._buffer_stack)))"),
+           ("inv-allocated-preserved", "implies(old(allocated(self._buffer_stack)), allocated(self._buffer_stack))"),
+           ("inv-writer-preserved", "implies(old(forall(lambda i: same(self._buffer_stack[i].write, self._buffer_stack[i].data), 0, len(self._buffer_stack))), forall(lambda i: same(self._buffer_stack[i].write, self._buffer_stack[i].data), 0, len(self._buffer_stack)))"),
+           ("inv-own-data-preserved", "implies(old(allocated(self._buffer_stack) and forall(lambda i, j: implies(i < j, not same(self._buffer_stack[i].data, self._buffer_stack[j].data)), 0, len(self._buffer_stack))), forall(lambda i, j: implies(i < j, not same(self._buffer_stack[i].data, self._buffer_stack[j].data)), 0, len(self._buffer_stack)))"),
+           ("pushed-one", "self._buffer_stack == old(self._buffer_stack) + [self._buffer_stack[len(old(self._buffer_stack))]]"),
            ("below-kept", "self._buffer_stack[:len(old(self._buffer_stack))] == old(self._buffer_stack)"),
            ("fresh-buffer", "fresh(self._buffer_stack[len(self._buffer_stack) - 1])"),
+           ("fresh-data", "fresh(self._buffer_stack[len(self._buffer_stack) - 1].data)"),
            ("empty-buffer", "len(self._buffer_stack[len(self._buffer_stack) - 1].data) == 0"),
            ("writer-of-top", "same(result, self._buffer_stack[len(self._buffer_stack) - 1].data)"),
            ("top-writer-inv", "same(self._buffer_stack[len(self._buffer_stack) - 1].write, self._buffer_stack[len(self._buffer_stack) - 1].data)")],
@@ -89,9 +94,14 @@ C("mako.runtime:Context._push_writer",
 C("mako.runtime:Context._push_buffer",
   params={"self": "Context"},
   modifies=["self._buffer_stack"],
-  ensures=[("pushed-one", "len(self._buffer_stack) == len(old(self._buffer_stack)) + 1"),
+  ensures=[("elements-kept", "forall(lambda i: same(self._buffer_stack[i], old(self._buffer_stack)[i]), 0, len(old(self._buffer_stack)))"),
+           ("inv-allocated-preserved", "implies(old(allocated(self._buffer_stack)), allocated(self._buffer_stack))"),
+           ("inv-writer-preserved", "implies(old(forall(lambda i: same(self._buffer_stack[i].write, self._buffer_stack[i].data), 0, len(self._buffer_stack))), forall(lambda i: same(self._buffer_stack[i].write, self._buffer_stack[i].data), 0, len(self._buffer_stack)))"),
+           ("inv-own-data-preserved", "implies(old(allocated(self._buffer_stack) and forall(lambda i, j: implies(i < j, not same(self._buffer_stack[i].data, self._buffer_stack[j].data)), 0, len(self._buffer_stack))), forall(lambda i, j: implies(i < j, not same(self._buffer_stack[i].data, self._buffer_stack[j].data)), 0, len(self._buffer_stack)))"),
+           ("pushed-one", "self._buffer_stack == old(self._buffer_stack) + [self._buffer_stack[len(old(self._buffer_stack))]]"),
            ("below-kept", "self._buffer_stack[:len(old(self._buffer_stack))] == old(self._buffer_stack)"),
            ("fresh-buffer", "fresh(self._buffer_stack[len(self._buffer_stack) - 1])"),
+           ("fresh-data", "fresh(self._buffer_stack[len(self._buffer_stack) - 1].data)"),
            ("empty-buffer", "len(self._buffer_stack[len(self._buffer_stack) - 1].data) == 0"),
            ("top-writer-inv", "same(self._buffer_stack[len(self._buffer_stack) - 1].write, self._buffer_stack[len(self._buffer_stack) - 1].data)")],
   props=["C05", "C13"])
@@ -100,7 +110,11 @@ C("mako.runtime:Context._pop_buffer",
   params={"self": "Context"}, returns="FastEncodingBuffer",
   requires=[("nonempty", "len(self._buffer_stack) >= 1")],
   modifies=["self._buffer_stack"],
-  ensures=[("popped", "self._buffer_stack == old(self._buffer_stack)[:len(old(self._buffer_stack)) - 1]"),
+  ensures=[("elements-kept", "len(self._buffer_stack) == len(old(self._buffer_stack)) - 1 and forall(lambda i: same(self._buffer_stack[i], old(self._buffer_stack)[i]), 0, len(self._buffer_stack))"),
+           ("inv-allocated-preserved", "implies(old(allocated(self._buffer_stack)), allocated(self._buffer_stack))"),
+           ("inv-writer-preserved", "implies(old(forall(lambda i: same(self._buffer_stack[i].write, self._buffer_stack[i].data), 0, len(self._buffer_stack))), forall(lambda i: same(self._buffer_stack[i].write, self._buffer_stack[i].data), 0, len(self._buffer_stack)))"),
+           ("inv-own-data-preserved", "implies(old(allocated(self._buffer_stack) and forall(lambda i, j: implies(i < j, not same(self._buffer_stack[i].data, self._buffer_stack[j].data)), 0, len(self._buffer_stack))), forall(lambda i, j: implies(i < j, not same(self._buffer_stack[i].data, self._buffer_stack[j].data)), 0, len(self._buffer_stack)))"),
+           ("popped", "self._buffer_stack == old(self._buffer_stack)[:len(old(self._buffer_stack)) - 1]"),
            ("returns-top", "same(result, old(self._buffer_stack)[len(old(self._buffer_stack)) - 1])")],
   props=["C05", "C13"])
 
@@ -108,7 +122,11 @@ C("mako.runtime:Context._pop_buffer_and_writer",
   params={"self": "Context"}, returns="Tuple[FastEncodingBuffer,Writer]",
   requires=[("two", "len(self._buffer_stack) >= 2")],
   modifies=["self._buffer_stack"],
-  ensures=[("popped", "self._buffer_stack == old(self._buffer_stack)[:len(old(self._buffer_stack)) - 1]"),
+  ensures=[("elements-kept", "len(self._buffer_stack) == len(old(self._buffer_stack)) - 1 and forall(lambda i: same(self._buffer_stack[i], old(self._buffer_stack)[i]), 0, len(self._buffer_stack))"),
+           ("inv-allocated-preserved", "implies(old(allocated(self._buffer_stack)), allocated(self._buffer_stack))"),
+           ("inv-writer-preserved", "implies(old(forall(lambda i: same(self._buffer_stack[i].write, self._buffer_stack[i].data), 0, len(self._buffer_stack))), forall(lambda i: same(self._buffer_stack[i].write, self._buffer_stack[i].data), 0, len(self._buffer_stack)))"),
+           ("inv-own-data-preserved", "implies(old(allocated(self._buffer_stack) and forall(lambda i, j: implies(i < j, not same(self._buffer_stack[i].data, self._buffer_stack[j].data)), 0, len(self._buffer_stack))), forall(lambda i, j: implies(i < j, not same(self._buffer_stack[i].data, self._buffer_stack[j].data)), 0, len(self._buffer_stack)))"),
+           ("popped", "self._buffer_stack == old(self._buffer_stack)[:len(old(self._buffer_stack)) - 1]"),
            ("returns-top", "same(result[0], old(self._buffer_stack)[len(old(self._buffer_stack)) - 1])"),
            ("writer-of-new-top", "same(result[1], self._buffer_stack[len(self._buffer_stack) - 1].write)")],
   props=["C05", "C13"])
